@@ -139,7 +139,7 @@ func modsetAnalysis(w *World, cs *Contracts) *ModSets {
 	}
 	// FSM callbacks: closures created in functions named callbacks / eventDesc users
 	for _, f := range fns {
-		if f.Parent() != nil && (f.Parent().Name() == "callbacks" || strings.Contains(f.Parent().Name(), "allbacks")) {
+		if f.Parent() != nil && (f.Parent().Name() == "callbacks" || strings.Contains(f.Parent().Name(), "allbacks") || f.Parent().Name() == "NewObjectState") {
 			m.fsmCBs = append(m.fsmCBs, f)
 		}
 	}
@@ -304,7 +304,33 @@ func (m *ModSets) resolve(c *ssa.CallCommon) []*ssa.Function {
 			return []*ssa.Function{callee}
 		}
 		if strings.Contains(callee.String(), "looplab/fsm") && strings.HasSuffix(callee.Name(), "Event") {
-			return m.fsmCBs
+			// which state machine? the receiver is loaded from a stateMachine field: Application machines run the
+			// closures of callbacks(), object (queue / partition) machines those of NewObjectState()
+			owner := ""
+			if len(c.Args) > 0 {
+				if u, ok := c.Args[0].(*ssa.UnOp); ok {
+					if fa, ok := u.X.(*ssa.FieldAddr); ok {
+						owner = fieldName(fa.X.Type(), fa.Field)
+					}
+				}
+			}
+			var out []*ssa.Function
+			for _, cb := range m.fsmCBs {
+				isApp := cb.Parent().Name() == "callbacks"
+				switch {
+				case strings.HasPrefix(owner, "Application."):
+					if isApp {
+						out = append(out, cb)
+					}
+				case owner != "":
+					if !isApp {
+						out = append(out, cb)
+					}
+				default:
+					out = append(out, cb)
+				}
+			}
+			return out
 		}
 		// external function taking module closures as arguments: the closures may run
 		var out []*ssa.Function
@@ -554,4 +580,34 @@ func (m *ModSets) onlyInitWrites(comp string) bool {
 		}
 	}
 	return true
+}
+
+// writersReachable lists the functions reachable from fn that write comp directly (for diagnostics).
+func (m *ModSets) writersReachable(fn *ssa.Function, comp string) []string {
+	seen := map[*ssa.Function]bool{}
+	var out []string
+	var walk func(f *ssa.Function)
+	walk = func(f *ssa.Function) {
+		if seen[f] {
+			return
+		}
+		seen[f] = true
+		if d := m.direct[f]; d != nil {
+			if _, ok := d.comps[comp]; ok {
+				out = append(out, funcKey(f))
+			}
+		}
+		if m.framed[f] {
+			return
+		}
+		for _, c := range m.calls[f] {
+			walk(c)
+		}
+	}
+	walk(fn)
+	sort.Strings(out)
+	if len(out) > 6 {
+		out = out[:6]
+	}
+	return out
 }
